@@ -236,6 +236,26 @@ if os.path.exists(_r8):
         if _k not in ROUND8:
             CLAIMED[_k]["text"] += " " + _v
 
+
+# round 9 (overlap): the company regime of the single-execution engines and the overlap programs of the model checks
+ROUND9_COMPANY = ("Round 9 (overlap): every plain-build phase is run a second time as '<phase>+company': the first worker process's worth "
+  "of its cases (thorough: four), same PRNG seeds, same oracle, while three other goroutines of that worker process execute without pause a battery of "
+  "24 families of self-checking programs (arithmetic, strings, equality, switch, slices, maps, typed slices and conversions, closures, control flow, "
+  "try/defer order, operand order, string truthiness calibrated on the tree itself, Go boundary, struct members, call kinds, parse shapes, literals, "
+  "builtins and imports, provenance, the environment API, the AST walker), each execution in an environment and a tree of its own with a source text "
+  "of its own, checked against a natively computed value; a case judged differently in company, or a battery program of this property's statement that "
+  "computes something else than alone, is a violation (signature company:<item>); the evidence counts the company's executions per item.")
+for _k in ("C03", "C04", "C05", "C06", "C07", "C08", "C09", "C10", "C11", "C12", "C17", "C19", "C20"):
+    CLAIMED[_k]["text"] += " " + ROUND9_COMPANY
+ROUND9_OVERLAP = {
+ "C04": "Overlap program (phase programs, six fresh parses per run): eight goroutines of one run, released together, call the SAME function values at once - script functions of 1-7 parameters (both call paths), two variadic ones, closures over an invocation's locals, a recursive function - 120 times each with arguments that identify the caller; every invocation records its own parameters and locals; the records of the overlapping pass, of the same calls made one after another and of a second overlapping pass must be the multiset the statement fixes.",
+ "C07": "Overlap program: eight goroutines of one run evaluate the same &&, ||, ?:, ?? nodes, list literals and argument lists at once, 90 rounds each over 23 deciding operands of every truthiness class (12 string shapes among them) that differ from goroutine to goroutine at every moment; probes record which operands each evaluation evaluated; the overlapping passes must record what the same work records one after another.",
+ "C08": "Overlap program: eight goroutines of one run decide the same switch statements (8, 9, 31 and 200 cases; string-literal cases, number and mixed multi-expression cases, default first / last), if chains and loops with break/continue at once - in the first pass for the first time in the life of the freshly parsed tree; every decision is recorded with its subject and compared with the decision the statement fixes.",
+ "C09": "Overlap program: eight goroutines of one run are inside invocations of the same functions at once, each invocation with three deferred calls (a host-visible record, a call with an argument evaluated at the defer statement, a closure), a try/catch/finally that throws every third time and a callee that fails; every invocation records the order in which its own deferred calls ran relative to its own body; the records must be those the statement fixes, in all three passes.",
+}
+for _k, _v in ROUND9_OVERLAP.items():
+    CLAIMED[_k]["text"] += " " + _v
+
 def main():
     checks = []
     for pid in ALL:
